@@ -46,11 +46,11 @@ def main():
     unk = {c["name"]: c["unknown"] for c in data["cfgs"]}
     options = [{"o": "tag", "v": "bexpr", "n": ""}, {"o": "tag", "v": "json", "n": ""},
                {"o": "hook", "v": "id", "n": ""}, {"o": "hook", "v": "unwrap", "n": ""}, {"o": "hook", "v": "none", "n": ""}, {"o": "hook", "v": "nildef", "n": ""},
-               {"o": "unknown", "v": unk["unk-str"], "n": "str"}, {"o": "unknown", "v": unk["unk-empty"], "n": "empty"},
+               {"o": "unknown", "v": unk["unk-str"], "n": "str"}, {"o": "unknown", "v": unk["unk-empty"], "n": "empty"}, {"o": "unknown", "v": unk["unk-nil"], "n": "nil"},
                {"o": "max", "v": 0, "n": ""}, {"o": "max", "v": steps[0] - 1, "n": ""}, {"o": "max", "v": max(steps), "n": ""}, {"o": "max", "v": 2 ** 30, "n": ""},
                {"o": "nil", "v": 0, "n": ""}]
     if not quick:
-        options += [{"o": "tag", "v": "", "n": ""}, {"o": "unknown", "v": unk["unk-nil"], "n": "nil"}, {"o": "max", "v": steps[0], "n": ""}]
+        options += [{"o": "tag", "v": "", "n": ""}, {"o": "max", "v": steps[0], "n": ""}]
     world = vlib.api_world("opts", worlds, docs, data["cfgs"], [0], exprs, 3 if quick else 4, options=options, probes=probes, steps=steps)
     world["docsel"] = []
     summ, bad = vlib.run_api(chk, "c18", world, invariants=("OptionLaws",))
